@@ -1299,6 +1299,10 @@ def as_iter(interp, x):
             return RangeFromIt(x.items[0])
         if x.kind in ("array", "vec"):
             return ListIt(list(x.items))
+        if x.kind == "btreemap":
+            if isinstance(x0, Ptr):
+                return ListIt([Agg([Ptr(pair, 0), Ptr(pair, 1)], "tuple") for pair in x.items])
+            return ListIt([Agg([pair[0], pair[1]], "tuple") for pair in x.items])
     raise Unanalysable("cannot iterate %r" % (x0,))
 
 
@@ -1400,6 +1404,10 @@ def install_models(I):
     S.append(("ExtensibleField::mul_base", lambda I, a, f: fval(a[0]) * fval(a[1])))
 
     def from_model(I, a, f):
+        # a From impl of the workspace (e.g. impl From<ContextId> for u32) is interpreted, not approximated
+        xid = getattr(f, "xid", None)
+        if xid in I.F.fns and getattr(f, "res", None) != "trait" and not xid.startswith("core::"):
+            return I.call(xid, a)
         x = deref(a[0])
         if is_field(x) or isinstance(x, (int, bool)):
             # E::from(u8/u16/u32/Felt)
@@ -1677,6 +1685,120 @@ def install_models(I):
             raise Unanalysable("core::array::from_fn with a symbolic length %r" % (ga,))
         return Agg([I.call_closure(a[0], [i]) for i in range(n)], "array")
     M["core::array::from_fn"] = array_from_fn
+
+    for ty_ in ("u8", "u16", "u32", "u64", "usize", "i32", "i64"):
+        S.append(("%s@Default::default" % ty_, lambda I, a, f: 0))
+    S.append(("bool@Default::default", lambda I, a, f: False))
+    S.append(("Vec@Default::default", lambda I, a, f: Agg([], "vec")))
+    S.append(("Option@Default::default", lambda I, a, f: none()))
+
+    # ---- BTreeMap with concrete keys: items = [[key, value], ...] kept sorted ------------------------------------------------
+    def map_key(k):
+        k = deref(k)
+        if isinstance(k, bool):
+            return (int(k),)
+        if isinstance(k, int):
+            return (k,)
+        if isinstance(k, Poly) and k.const_value() is not None:
+            return (k.const_value(),)
+        if isinstance(k, Agg):
+            out = ()
+            for x in k.items:
+                out += map_key(x)
+            return out
+        raise Unanalysable("map key %r is not concrete" % (k,))
+
+    def bmap(x):
+        m = deref(x)
+        # newtype wrappers around a map (struct X(BTreeMap<..>))
+        while isinstance(m, Agg) and m.kind == "adt" and len(m.items) == 1 and isinstance(m.items[0], Agg) and m.items[0].kind == "btreemap":
+            m = m.items[0]
+        if not (isinstance(m, Agg) and m.kind == "btreemap"):
+            raise Unanalysable("not a map: %r" % (m,))
+        return m
+
+    def bmap_find(m, k):
+        kk = map_key(k)
+        for i, (key, val) in enumerate(m.items):
+            if map_key(key) == kk:
+                return i
+        return None
+
+    def bmap_insert(m, k, v):
+        i = bmap_find(m, k)
+        if i is not None:
+            old = m.items[i][1]
+            m.items[i][1] = v
+            return some(old)
+        kk = map_key(k)
+        pos = len([1 for key, val in m.items if map_key(key) < kk])
+        m.items.insert(pos, [deref(k) if not isinstance(k, Ptr) else clone_val(deref(k)), v])
+        return none()
+
+    M["alloc::collections::btree::map::BTreeMap@Default::default"] = lambda I, a, f: Agg([], "btreemap")
+    S.append(("BTreeMap@Default::default", lambda I, a, f: Agg([], "btreemap")))
+    M["alloc::collections::btree::map::BTreeMap::insert"] = lambda I, a, f: bmap_insert(bmap(a[0]), a[1], a[2])
+    M["alloc::collections::btree::map::BTreeMap::len"] = lambda I, a, f: len(bmap(a[0]).items)
+    M["alloc::collections::btree::map::BTreeMap::is_empty"] = lambda I, a, f: not bmap(a[0]).items
+    M["alloc::collections::btree::map::BTreeMap::contains_key"] = lambda I, a, f: bmap_find(bmap(a[0]), a[1]) is not None
+
+    def bmap_get(I, a, f):
+        m = bmap(a[0])
+        i = bmap_find(m, a[1])
+        return none() if i is None else some(Ptr(m.items[i], 1))
+    M["alloc::collections::btree::map::BTreeMap::get"] = bmap_get
+    M["alloc::collections::btree::map::BTreeMap::get_mut"] = bmap_get
+
+    def bmap_iter(I, a, f):
+        m = bmap(a[0])
+        return ListIt([Agg([Ptr(pair, 0), Ptr(pair, 1)], "tuple") for pair in m.items])
+    M["alloc::collections::btree::map::BTreeMap::iter"] = bmap_iter
+    M["alloc::collections::btree::map::BTreeMap::iter_mut"] = bmap_iter
+    M["alloc::collections::btree::map::BTreeMap::values"] = lambda I, a, f: ListIt([Ptr(pair, 1) for pair in bmap(a[0]).items])
+    M["alloc::collections::btree::map::BTreeMap::keys"] = lambda I, a, f: ListIt([Ptr(pair, 0) for pair in bmap(a[0]).items])
+    M["alloc::collections::btree::map::BTreeMap::into_values"] = lambda I, a, f: ListIt([pair[1] for pair in bmap(a[0]).items])
+
+    def bmap_entry(I, a, f):
+        m = bmap(a[0])
+        e = Opaque("map-entry")
+        e.map, e.key = m, a[1]
+        return e
+    M["alloc::collections::btree::map::BTreeMap::entry"] = bmap_entry
+
+    def entry_slot(e, mk):
+        i = bmap_find(e.map, e.key)
+        if i is None:
+            bmap_insert(e.map, e.key, mk())
+            i = bmap_find(e.map, e.key)
+        return Ptr(e.map.items[i], 1)
+
+    def entry_and_modify(I, a, f):
+        e = a[0]
+        i = bmap_find(e.map, e.key)
+        if i is not None:
+            I.call_closure(a[1], [Ptr(e.map.items[i], 1)])
+        return e
+    M["alloc::collections::btree::map::entry::Entry::and_modify"] = entry_and_modify
+    M["alloc::collections::btree::map::entry::Entry::or_insert"] = lambda I, a, f: entry_slot(a[0], lambda: a[1])
+    M["alloc::collections::btree::map::entry::Entry::or_insert_with"] = lambda I, a, f: entry_slot(a[0], lambda: I.call_closure(a[1], []))
+
+    def entry_or_default(I, a, f):
+        ga = [str(g) for g in (getattr(f, "ga", None) or [])]
+        vty = ga[1] if len(ga) > 1 else ""
+
+        def mk():
+            if vty.startswith("std::vec::Vec<") or vty.startswith("alloc::vec::Vec<"):
+                return Agg([], "vec")
+            if vty in ("u8", "u16", "u32", "u64", "usize"):
+                return 0
+            # a type of the workspace with a Default impl
+            name = vty.split("<")[0]
+            cands = [k for k in I.F.fns if k.endswith("@Default::default") and name.split("::")[-1] in k]
+            if len(cands) == 1:
+                return I.call(cands[0], [])
+            raise Unanalysable("or_default for value type %r" % vty)
+        return entry_slot(a[0], mk)
+    M["alloc::collections::btree::map::entry::Entry::or_default"] = entry_or_default
 
     # ---- standard-library pack: collections, iterator adaptors, Option / Result combinators, integer conversions ----------
     def vec_of(x):
